@@ -246,7 +246,7 @@ def main():
     rep = common.Report(PID, "model_checking")
     rep.rule = ("one case = one script; paths = iteration orders of the string-hashed sets met by the code (forked by the order stub); "
                 "the outcome (normalised content snapshot, dumps text, dumps text of an instance) must agree on all paths")
-    rep.bounds = {"scripts": len(SCRIPTS), "symbols per set": "<=4", "seed sweep on a difference": "PYTHONHASHSEED 0..23 (replay file: 0..63)"}
+    rep.bounds = {"scripts": len(SCRIPTS), "of which assembled through the API": len(API), "symbols per set": "<=4", "seed sweep on a difference": "PYTHONHASHSEED 0..23 (replay file: 0..63)"}
     rep.assumptions = [
         "one iteration order per distinct set content per path; int-keyed sets (modes) are not permuted: their order does not depend on the hash seed (include mode map: C07)",
         "sets are intercepted at: sympy free_symbols (all classes defining it) and the name `set` in listener/program/utils/auxiliary",
